@@ -263,7 +263,11 @@ var propC02 = &Prop[InstCase]{
 		}
 		mode := rapid.SampledFrom([]int{0, 16, 32}).Draw(t, "mode")
 		style := rapid.IntRange(0, 7).Draw(t, "style")
-		return mkMemCase(mode, c, sh, d, has, reg, imm, style)
+		mc := mkMemCase(mode, c, sh, d, has, reg, imm, style)
+		if rapid.IntRange(0, 3).Draw(t, "ctx") == 0 {
+			mc.Ctx = "widen"
+		}
+		return mc
 	},
 	Check: checkC02,
 	Enum: func(tier string, yield func(InstCase)) bool {
